@@ -491,9 +491,13 @@ def random_spec(r, regime="calibrated", features=None):
     if has_source:
         comps.append({"name": "src", "kind": "source"})
     juncs = [f"j{i}" for i in range(n_junc)]
+    jcomps = []
     for j in juncs:
         jinit = r.random() < f.get("jinit", 0.3)
-        comps.append({"name": j, "kind": "junction", "databook": jinit, "init": popvals(5, 100, 0.3) if jinit else None})
+        jcomps.append({"name": j, "kind": "junction", "databook": jinit, "init": popvals(5, 100, 0.3) if jinit else None})
+    if f.get("jreverse"):
+        jcomps.reverse()   # the feeding junction stands BELOW the junction it feeds in the compartments sheet: the order of evaluation must come from the links, not from the listing
+    comps.extend(jcomps)
 
     stocks = norm + list(timed_comps)
     # ordinary transitions
